@@ -606,6 +606,69 @@ func TestC07Backpressure(t *testing.T) {
 		if len(late) < b {
 			failf("stalled-subscriber-underfilled", "only deliveries beyond the configured buffer are dropped", fmt.Sprintf("%d events delivered, buffer %d", len(late), b), fmt.Sprintf(">= %d", b))
 		}
+		// a connection that ends with undelivered events in its buffer: nothing of it may
+		// reach a connection that starts afterwards
+		if rapid.Bool().Draw(t, "ghost_check") {
+			ghost := newRConn(300, router)
+			sub(ghost)
+			ghost.stall.Store(true)
+			time.Sleep(2500 * time.Microsecond)
+			for k := 0; k < b+3; k++ {
+				seq++
+				e := &mocrelay.Event{Pubkey: authors[0], Kind: 1, CreatedAt: int64(seq), Tags: []mocrelay.Tag{}, Content: fmt.Sprint("ghost", k)}
+				gen.Seal(e)
+				p := pubs[0]
+				if err := p.put(&mocrelay.ClientEventMsg{Event: e}, 10*time.Second); err != nil {
+					failf("publisher-delayed", "a subscriber that stops reading never delays publishers", err.Error(), "")
+				}
+				if _, ok := p.next(10 * time.Second); !ok {
+					failf("publisher-delayed", "every publisher gets its OK", "no OK", "")
+				}
+				for _, r := range readers {
+					r.next(stepTimeout) // keep the healthy subscribers drained
+				}
+			}
+			if err := ghost.end(rapid.Bool().Draw(t, "ghost_end_by_close")); err != nil && false {
+				failf("disconnect", "a finished connection returns", err.Error(), "")
+			}
+			fresh := newRConn(301, router)
+			defer fresh.end(false)
+			if err := fresh.put(&mocrelay.ClientReqMsg{SubscriptionID: "fresh", ReqFilters: []*mocrelay.ReqFilter{{Kinds: []int64{9998}}}}, stepTimeout); err != nil {
+				failf("stalled", "REQ is taken", err.Error(), "")
+			}
+			seq++
+			sent := &mocrelay.Event{Pubkey: authors[0], Kind: 9998, CreatedAt: int64(seq), Tags: []mocrelay.Tag{}, Content: "sentinel for the fresh connection"}
+			gen.Seal(sent)
+			gotEOSE := false
+			for !gotEOSE {
+				m, ok := fresh.next(stepTimeout)
+				if !ok {
+					failf("no-eose", "every REQ is answered by EOSE", "no EOSE on the fresh connection", "")
+				}
+				switch x := m.(type) {
+				case *mocrelay.ServerEOSEMsg:
+					gotEOSE = true
+				case *mocrelay.ServerEventMsg:
+					failf("delivery-extra", "no subscription of a finished connection receives events (a new connection got an event labelled for another connection's subscription)", hx.JSON(briefServer(x)), "nothing")
+				}
+			}
+			if err := pubs[0].put(&mocrelay.ClientEventMsg{Event: sent}, stepTimeout); err != nil {
+				failf("stalled", "EVENT is taken", err.Error(), "")
+			}
+			for {
+				m, ok := fresh.next(stepTimeout)
+				if !ok {
+					failf("delivery-missing", "an open matching subscription receives the event", "sentinel not delivered to the fresh connection", "")
+				}
+				em, is := m.(*mocrelay.ServerEventMsg)
+				if is && em.SubscriptionID == "fresh" && em.Event.ID == sent.ID {
+					break
+				}
+				failf("delivery-extra", "no subscription of a finished connection receives events (a new connection got a message that is not its own)", hx.JSON(briefServer(m)), "only the sentinel")
+			}
+			pubs[0].next(stepTimeout) // the sentinel's OK
+			col.Label("ghost-check")
+		}
 		col.Label("mode:backpressure")
 		col.Case(true, hx.JSON(desc), func() any { return desc })
 	})
@@ -924,5 +987,145 @@ func TestC07Concurrent(t *testing.T) {
 		}
 		col.Label("mode:concurrent")
 		col.Case(overlapping && len(pubs) > 0, hx.JSON(desc), func() any { return desc })
+	})
+}
+
+// TestC07Churn: registry churn (other connections subscribing / closing, a large
+// idle connection) and continuous publishing while a victim connection repeatedly
+// opens a subscription, sees its EOSE and then has a matching event published: by
+// the real-time rule that event must be delivered. Waiting is positive (for the
+// delivery), so a timeout only happens on a violation.
+func TestC07Churn(t *testing.T) {
+	col := ev.For("C07").SetRule(c07Rule)
+	rapid.Check(t, func(t *rapid.T) {
+		router := mocrelay.NewRouterHandler(4096)
+		authors := gen.Pubkeys(2)
+		nIdle := rapid.SampledFrom([]int{0, 200, 2000, 8000}).Draw(t, "idle_subscriptions")
+		nChurn := rapid.IntRange(1, 3).Draw(t, "churners")
+		iters := rapid.IntRange(60, 250).Draw(t, "iterations")
+		desc := map[string]any{"idle_subscriptions": nIdle, "churners": nChurn, "iterations": iters, "mode": "churn"}
+		failMsg := ""
+		var failMu sync.Mutex
+		setFail := func(s string) {
+			failMu.Lock()
+			if failMsg == "" {
+				failMsg = s
+			}
+			failMu.Unlock()
+		}
+		idle := newRConn(1, router)
+		defer idle.end(false)
+		for i := 0; i < nIdle; i++ {
+			if idle.put(&mocrelay.ClientReqMsg{SubscriptionID: fmt.Sprint("idle", i), ReqFilters: []*mocrelay.ReqFilter{{Kinds: []int64{4242}}}}, stepTimeout) != nil {
+				t.Fatalf("idle REQ not taken")
+			}
+		}
+		// drain the idle connection's EOSEs in the background
+		var stop atomic.Bool
+		var wg sync.WaitGroup
+		wg.Add(1)
+		go func() {
+			defer wg.Done()
+			for !stop.Load() {
+				idle.next(5 * time.Millisecond)
+			}
+		}()
+		for c := 0; c < nChurn; c++ {
+			wg.Add(1)
+			go func(c int) {
+				defer wg.Done()
+				conn := newRConn(10+c, router)
+				defer conn.end(false)
+				for i := 0; !stop.Load(); i++ {
+					id := fmt.Sprint("churn", i%3)
+					if conn.put(&mocrelay.ClientReqMsg{SubscriptionID: id, ReqFilters: []*mocrelay.ReqFilter{{Kinds: []int64{4243}}}}, stepTimeout) != nil {
+						return
+					}
+					conn.next(stepTimeout)
+					if i%2 == 1 {
+						if conn.put(&mocrelay.ClientCloseMsg{SubscriptionID: id}, stepTimeout) != nil {
+							return
+						}
+					}
+				}
+			}(c)
+		}
+		// background publisher: keeps Publish walking the registry
+		wg.Add(1)
+		go func() {
+			defer wg.Done()
+			conn := newRConn(20, router)
+			defer conn.end(false)
+			for i := 0; !stop.Load(); i++ {
+				e := &mocrelay.Event{Pubkey: authors[1], Kind: 4244, CreatedAt: int64(i), Tags: []mocrelay.Tag{}, Content: fmt.Sprint("noise", i)}
+				gen.Seal(e)
+				if conn.put(&mocrelay.ClientEventMsg{Event: e}, stepTimeout) != nil {
+					return
+				}
+				conn.next(stepTimeout)
+			}
+		}()
+		victim := newRConn(30, router)
+		defer victim.end(false)
+		pub := newRConn(31, router)
+		defer pub.end(false)
+		for i := 0; i < iters && failMsg == ""; i++ {
+			sid := fmt.Sprint("v", i%4)
+			if victim.put(&mocrelay.ClientReqMsg{SubscriptionID: sid, ReqFilters: []*mocrelay.ReqFilter{{Kinds: []int64{1}, Authors: authors[:1]}}}, stepTimeout) != nil {
+				setFail("victim REQ not taken")
+				break
+			}
+			// EOSE (deliveries of earlier iterations to a replaced id may still arrive: ignore events here)
+			for {
+				m, ok := victim.next(stepTimeout)
+				if !ok {
+					setFail(fmt.Sprintf("iteration %d: no EOSE for %s", i, sid))
+					break
+				}
+				if eo, is := m.(*mocrelay.ServerEOSEMsg); is && eo.SubscriptionID == sid {
+					break
+				}
+			}
+			if failMsg != "" {
+				break
+			}
+			e := &mocrelay.Event{Pubkey: authors[0], Kind: 1, CreatedAt: int64(i), Tags: []mocrelay.Tag{}, Content: fmt.Sprint("victim", i)}
+			gen.Seal(e)
+			if pub.put(&mocrelay.ClientEventMsg{Event: e}, stepTimeout) != nil {
+				setFail("publisher EVENT not taken")
+				break
+			}
+			if _, ok := pub.next(stepTimeout); !ok {
+				setFail("publisher got no OK")
+				break
+			}
+			// the EOSE was received before the EVENT was sent => must deliver
+			deadline := time.Now().Add(5 * time.Second)
+			got := false
+			for time.Now().Before(deadline) {
+				m, ok := victim.next(time.Until(deadline))
+				if !ok {
+					break
+				}
+				if em, is := m.(*mocrelay.ServerEventMsg); is && em.Event.ID == e.ID && em.SubscriptionID == sid {
+					got = true
+					break
+				}
+			}
+			if !got {
+				setFail(fmt.Sprintf("iteration %d: subscription %s had received its EOSE before event %s was sent, but the event was not delivered within 5 s", i, sid, gen.Short(e.ID)))
+			}
+			if i%3 == 2 {
+				victim.put(&mocrelay.ClientCloseMsg{SubscriptionID: sid}, stepTimeout)
+			}
+		}
+		stop.Store(true)
+		wg.Wait()
+		if failMsg != "" {
+			hx.Fail(t, ev.Failure{Property: "C07", Signature: "concurrent-delivery-missing", Clause: "real-time rule under registry churn: EOSE received before the EVENT was sent => the subscription receives it", Case: desc, Observed: failMsg})
+		}
+		col.Label("mode:churn")
+		col.Add("churn_iterations", int64(iters))
+		col.Case(true, hx.JSON(desc), func() any { return desc })
 	})
 }
